@@ -14,7 +14,7 @@ Exhausted fuel can therefore only be reported by the inner power bisection (next
 theorem C17_balanced_market_plan_loop_ends (ops : Ops α B) (hnf : NoFuel ops) (env : Env α)
     (v : VehicleS α B) (ts : List (TS α)) (sorted : List (α × Nat))
     (hb : ∀ (cs : StationS α) (same : List Nat) (oldSoc desired : α) (power : List α) (sim : B),
-      bisect ops env.eps cs v.minChargingPower ts same oldSoc desired bisectFuel 0 cs.maxPower false
+      bisect ops env.eps cs v.minChargingPower ts same oldSoc desired bisectFuel 0 (cs.maxPower - pymin cs.currentPower 0) false
         power sim ≠ .error .fuel)
     (st : VSt α B) (h0 : st.sortedIdx = 0) :
     chargeLoop ops env v ts sorted (sorted.length + 1) st ≠ .error .fuel :=
